@@ -15,7 +15,35 @@ class Plugin(HistPlugin):
     FINDING_BITS = 2 | 8
     UNDECIDED_BITS = 1 | 4
 
+    def gen_focus_noop(self, rng):
+        """several documents match; the single-document write leaves the FIRST match as it is
+        (its target state is the state it is already in) and would change a later one"""
+        n = rng.choice([2, 3, 4])
+        vals = [rng.choice([1, 2]) for _ in range(n)]
+        docs = [{'_id': k + 1, 'g': 1, 'v': vals[k], 't': [vals[k]]} for k in range(n)]
+        if rng.random() < 0.3:
+            docs.insert(0, {'_id': 0, 'g': 2, 'v': 9, 't': []})
+        ops = [{'op': 'clock', 't': 0}, {'op': 'insert_many', 'docs': docs, 'ordered': True}]
+        first = vals[0]
+        for _ in range(rng.choice([1, 2])):
+            k = rng.choice(['set', 'addToSet', 'replace', 'fam', 'max'])
+            up = rng.random() < 0.3
+            if k == 'set':
+                ops.append({'op': 'update', 'filter': {'g': 1}, 'update': {'$set': {'v': first}}, 'multi': False, 'upsert': up})
+            elif k == 'addToSet':
+                ops.append({'op': 'update', 'filter': {'g': 1}, 'update': {'$addToSet': {'t': first}}, 'multi': False, 'upsert': up})
+            elif k == 'max':
+                ops.append({'op': 'update', 'filter': {'g': 1}, 'update': {'$max': {'v': 0}, '$set': {'t': [first]}}, 'multi': False, 'upsert': up})
+            elif k == 'replace':
+                ops.append({'op': 'replace', 'filter': {'g': 1}, 'repl': {'g': 1, 'v': first, 't': [first]}, 'upsert': up})
+            else:
+                ops.append({'op': 'fam', 'kind': 'update', 'filter': {'g': 1}, 'sort': [], 'proj': None, 'upsert': up,
+                            'after': rng.random() < 0.5, 'arg': {'$set': {'v': first}}})
+        return {'ops': ops, 'pre5': False}
+
     def gen_case(self, rng, i, tier):
+        if rng.random() < 0.15:
+            return self.gen_focus_noop(rng)
         gen.TINY[0] = rng.random() < 0.7
         try:
             return HistPlugin.gen_case(self, rng, i, tier)
